@@ -106,6 +106,11 @@ else:
         for s, hit, broken in ex.map(one_scratch, seeds):
             report(s, hit, broken)
             res[s] = hit
+lr = os.path.join(V, SDIR, 'last_results.json')
 if not args and not only:
-    json.dump({k: (None if v is None else [[c, f] for c, f in v]) for k, v in res.items()},
-              open(os.path.join(V, SDIR, 'last_results.json'), 'w'), indent=1)
+    json.dump({k: (None if v is None else [[c, f] for c, f in v]) for k, v in res.items()}, open(lr, 'w'), indent=1)
+elif args and not only and os.path.exists(lr):
+    # a re-run of named seeds with the full set of checks refreshes their rows of the stored matrix
+    old = json.load(open(lr))
+    old.update({k: (None if v is None else [[c, f] for c, f in v]) for k, v in res.items()})
+    json.dump(old, open(lr, 'w'), indent=1)
